@@ -1,7 +1,12 @@
 """C17 — generation is deterministic."""
-from . import c01
+import json
+import os
 
-FILES = c01.FILES + ["c17.go", "gen_mapranges.go"]
+# c17.go needs only the shared core (newFgen is in prog.go): no other property's Go file can break this check
+FILES = ["c17.go", "gen_mapranges.go"]
+
+PROPS = ["AvoVerif.Props.C17", "AvoVerif.Props.C17Tables", "AvoVerif.Props.C17Pipeline", "AvoVerif.Props.C02"]
+
 
 def run(ctx):
     if not ctx.build_harness(FILES):
@@ -10,18 +15,67 @@ def run(ctx):
     ctx.forbidden_scan()
     if not ctx.build_driver():
         return
-    if ctx.lake_each(["AvoVerif.Props.C17", "AvoVerif.Props.C17Tables", "AvoVerif.Props.C02"]):
+    if ctx.lake_each(PROPS):
         ctx.audit("C17")
     if ctx.tier == "thorough":
-        ctx.leanchecker(["AvoVerif.Props.C17", "AvoVerif.Props.C17Tables"])
+        ctx.leanchecker(["AvoVerif.Props.C17", "AvoVerif.Props.C17Tables", "AvoVerif.Props.C17Pipeline"])
     if ctx.tier == "quick":
-        n, runs, procs = 300, 20, 4
+        n, nctx, runs, procs = 200, 400, 16, 4
     else:
-        n, runs, procs = 3000, 100, 16
-    ctx.differential("c17", n, extra=["-runs", str(runs), "-procs", str(procs)],
-                     nontrivial=lambda req, resp: " err:" not in req)
-    ctx.coverage["rule"] = (f"{n} generated two-function programs biased to ties (equal priorities, equally restricted virtuals, several "
-                            f"register classes, many ISAs), each generated and compiled from scratch {runs} times in one process and once in "
-                            f"each of {procs} fresh processes (fresh map hash seeds); digest of asm bytes + stub bytes + Allocation + ISA lists "
-                            "must be identical; non-trivial = compiled successfully")
-    ctx.assumptions += ["every enumerated map iteration has an order-independence theorem about the models; that no other source of nondeterminism exists (e.g. in printers or go/format) is measured by the repeated runs"]
+        n, nctx, runs, procs = 2000, 4000, 40, 10
+    dump = os.path.join(ctx.dir, "differing-outputs")
+    nt = lambda req, resp: req.startswith("accept-det") and " err:" not in req and " panic" not in req
+    ctx.run_corpus("c17", nontrivial=nt)
+    ctx.differential("c17", n, extra=["-nctx", str(nctx), "-runs", str(runs), "-procs", str(procs), "-dump", dump],
+                     nontrivial=nt)
+    # floors: a generator or a compile step that silently drops cases must not pass as "nothing differed"
+    try:
+        st = json.load(open(os.path.join(ctx.dir, "c17.stats.json")))
+    except Exception:
+        st = None
+    if st is not None and not ctx.replay:
+        floors = [("f_compiled", 0.6 * n), ("c_compiled", 0.5 * nctx), ("c_compiled_ge2_includes", 0.25 * nctx),
+                  ("c_compiled_ge2_funcs", 0.25 * nctx), ("c_compiled_with_data", 0.25 * nctx),
+                  ("c_compiled_with_constraints", 0.15 * nctx), ("c_compiled_ge3_isa", 0.3 * nctx),
+                  ("isa_lists", 0.5 * (n + nctx))]
+        low = [f"{k}={st.get(k, 0)} < {int(v)}" for k, v in floors if st.get(k, 0) < v]
+        if st.get("runs_per_program", 0) != runs + procs:
+            low.append(f"runs_per_program={st.get('runs_per_program')} != {runs + procs}")
+        if low:
+            ctx.obligation_failures.append(("c17: sample floors", "too few judged cases: " + "; ".join(low)))
+    ctx.coverage["rule"] = (
+        f"two streams, every program generated from scratch for every run: (f) {n} ir-level two-function programs biased to ties "
+        f"(equal priorities, equally restricted virtuals, several register classes, many ISAs) compiled with pass.Compile and both printers; "
+        f"(c) {nctx} files built through build.Context — alternately the methods of a fresh context and the package-level functions on a "
+        f"swapped-in fresh global context — with 1–3 functions, 7 signature shapes, Param/Load/Store of components, data sections "
+        f"(GLOBL/DATA/ConstData, all constant types), constraints, docs, pragmas, comments, labels, locals, 0–3 extra #include lines, "
+        f"register pressure up to allocation failure, run through build.Main [include pass, pass.Compile, Output(goasm), Output(stubs)]. "
+        f"Each program is generated {runs} times in this process (other generations interleaved every 5th run) and once in each of "
+        f"{procs} fresh processes (fresh map hash seeds; even children generate the programs forwards, odd ones backwards, routes "
+        f"alternate); the digest asm bytes . stub bytes . (Allocation, ISA, LocalSize) — or the error text — must be identical in all "
+        f"{runs + procs} runs; the ISA list of every compiled function is compared with the model; floors on the number of compiled "
+        f"programs per shape are obligations. non-trivial = compiled successfully")
+    ctx.coverage["map_census"] = ("Gen.MapRanges (go/types over reg ir pass printer build gotypes buildtags attr operand x86 internal/prnt "
+                                  "internal/stack src): range over map, maps.Keys/Values/All (not directly under slices.Sorted*), reflect "
+                                  "MapKeys/MapRange/Seq, sync.Map.Range; obligation mapIterTypes_known = every (package, underlying map type) "
+                                  "enumerated is one with an order-independence theorem; sites are informational")
+    ctx.assumptions += [
+        "PROVED about the models: generation_deterministic (Props/C17Pipeline) — liveness, interference edges, per-kind allocation, merge, ISA "
+        "list and any function of (allocation lookup, ISA list) are independent of the enumeration order of every modelled map, for every "
+        "dynamic occurrence separately; the models are tied to the code by the differentials of C01/C02/C03 (allocator, liveness) and by the "
+        "`isa` lines here",
+        "MEASURED only (repeated runs, fresh processes): that nothing outside the enumerated map iterations is nondeterministic — printers, "
+        "go/format of the stubs, build.Context, gotypes, buildtags, time/environment/pointer-order dependence; a source of nondeterminism "
+        "that is not a map enumeration (e.g. sort.Slice with a non-total order, %p, time.Now, os.Environ, goroutines) is invisible to the "
+        "census and is caught only if one of the generated programs exhibits it within the runs",
+        "the identity of the error returned by AllocateRegisters when allocators of two kinds fail differently depends on map order in the "
+        "code (first failing kind in `range as`); both messages that can occur through pass.Compile are identical ('failed to allocate "
+        "registers'), the model theorem therefore identifies all errors",
+        "a new loop over a map type that the same package already enumerates is NOT reported by the census (by design, to tolerate "
+        "refactorings); it is covered only by the measurement",
+        "the package-level route runs on a fresh context swapped in through the verif hook build.VerifSwapContext; reuse of the one real "
+        "global context for several build.Generate calls is not the same program twice and is out of scope",
+        "printer.Config.Argv/Name are fixed by the harness: output that embeds the real command line differs between invocations by design",
+    ]
+    ctx.trusted.append("C17: the digest comparison (sha256, truncated to 40 bits per part) and the per-run regeneration are harness glue; "
+                       "the Lean acceptor only compares the digests and rejects panics")
